@@ -122,6 +122,38 @@ fn main() {
             });
         }
     }
+    // other spellings of a Rust string literal: every escape the language has, and raw strings (also with quotes
+    // inside, followed by further bounds)
+    let spellings: Vec<(&str, &str)> = vec![
+        (r#""line\r\nbreak""#, "line\r\nbreak"),
+        (r#""caf\u{e9} \u{1F600}""#, "caf\u{e9} \u{1F600}"),
+        (r#""\x41BC""#, "ABC"),
+        (r#""nul\0end""#, "nul\0end"),
+        ("\"a\\\n      b\"", "ab"),
+        (r##"r"plain raw""##, "plain raw"),
+        (r###"r#"raw "quoted" \n stays"#"###, "raw \"quoted\" \\n stays"),
+        (r####"r##"a "# b"##"####, "a \"# b"),
+        (r###"r#"max = 99, min = 50"#"###, "max = 99, min = 50"),
+        (r###"r#"say "max = 99""#"###, "say \"max = 99\""),
+    ];
+    for (lit, value) in &spellings {
+        for form in ["length (min = 1 , message = {M} , max = 7)", "length (message = {M} , min = 1 , max = 7)", "length (min = 1 , max = 7 , message = {M})"] {
+            let s = form.replace("{M}", lit);
+            rep.case("message_exact", &s, &|| {
+                match vp.verif_parse_length_from_tokens(&s) {
+                    Some(r) if r.message.as_deref() == Some(*value) && r.min == Some(1) && r.max == Some(7) => Ok(value.to_string()),
+                    other => Err(format!("declared min=1, max=7, message {:?}; parsed {:?}", value, other.map(|r| (r.min, r.max, r.message)))),
+                }
+            });
+        }
+        let s = format!("range (min = 1 , message = {} , max = 7)", lit);
+        rep.case("message_exact", &s, &|| {
+            match vp.verif_parse_range_from_tokens(&s) {
+                Some(r) if r.message.as_deref() == Some(*value) && r.min == Some(1.0) && r.max == Some(7.0) => Ok(value.to_string()),
+                other => Err(format!("declared min=1, max=7, message {:?}; parsed {:?}", value, other.map(|r| (r.min, r.max, r.message)))),
+            }
+        });
+    }
     // C11 render side, end to end through build_schema: the emitted literal decodes (JavaScript rules) to
     // exactly the declared message — any correct escaping style is accepted
     let cfg = GenerateConfig::default();
